@@ -3149,7 +3149,16 @@ pub fn load_state(server: &mut Server, mut client: OptionalClient, path: &str) {
         Timeout::Default,
     );
 
-    let mut buffer = Buffer::with_capacity(200000);
+    // One saved record is the JSON form of a request that came in through a
+    // command channel, so it can be as large as the channel allows (JSON
+    // escaping included): size the parse buffer from the channel ceiling
+    // instead of a fixed 200000 bytes, or SaveState can write a state that
+    // LoadState cannot read back.
+    let buffer_capacity = std::cmp::max(
+        200_000,
+        (server.config.max_command_buffer_size as usize).saturating_mul(2),
+    );
+    let mut buffer = Buffer::with_capacity(buffer_capacity);
     let mut scatter_request_counter = 0usize;
 
     let status = loop {
